@@ -35,7 +35,7 @@ def main():
     # changes that only show with inputs the checks deliberately do not generate (DESIGN.md section 6,
     # "changes that no registered check reaches"): the thorough tier draws from the same domain, so
     # escalating to it would only burn time
-    no_escalate = {"C04-D", "C08-F", "C18-F", "C04-G", "C06-H", "C11-G", "C12-G", "C12-H", "C13-I", "C13-J"}
+    no_escalate = {"C04-D", "C08-F", "C18-F", "C04-G", "C06-H", "C11-G", "C12-G", "C12-H", "C13-I", "C13-J", "C13-L", "C01-L", "C06-L"}
     if f"{prop}-{label}" in no_escalate and "--escalate" in sys.argv:
         sys.argv.remove("--escalate")
     checks = [prop]
